@@ -53,6 +53,24 @@ CLAIMS.update({
    ref="DESIGN.md section 4 C17"),
 })
 
+CLAIMS.update({
+ "C06": dict(
+   technique="decomposition of the completeness argument into structural clauses: constructor store summaries (LF engine), quantisation normal forms, box layout / slot agreement, index-pairing and loop-range rules over clang AST, three contact models",
+   text="Decides every link of the argument 'node within the cut-off of a face => the pair reaches the narrow phase' on the code of all three contact models: padding = max(cut-offs) and every narrow-phase cut-off is bounded by it (lattice table on the constructor's symbolic store); box layout written by update_face_aabbs and read by aabb_intersection_check agree slot by slot and axis by axis; the box index (global_face_id_) equals the position in face_lst_; registration and look-up use the same quantisation floor((coord-min_axis)/voxel_size); registration loops are inclusive from start to stop voxel in x,y,z; the grid is re-dimensioned with the global extrema of the padded boxes before registration; the look-up applies no filter beyond the documented ones. Given monotonicity of floor these clauses imply that no pair within range is discarded.",
+   note="Floating-point behaviour at voxel borders and the equality with an all-pairs reference as such are not decided. Assumes non-negative cut-offs.",
+   ref="DESIGN.md section 4 C06"),
+ "C11": dict(
+   technique="symbolic store summaries of split_edge/merge_edge prefixes (LF engine), syntactic effect rule on pos_, side-tag dataflow for labels, dominance rules for selectivity",
+   text="Decides for all operand values and all six configurations: split_edge conserves p_a+p_b (2/3,2/3,1/3+1/3) and merge_edge gives the new node p_a+p_b; the added node is at the midpoint of the edge's own end nodes; no function in refine_mesh's callee closure mutates pos_ of an existing node; each face created by a split receives the label of the parent triangle on its own side; split/merge/swap are only reached under l2 > l_max^2, l2 < l_min^2 and can_be_merged, score < threshold and the enable flag, with l2 the squared length of that very edge and thresholds the squares of the constructor arguments.",
+   note="Termination of the refinement loop rests on geometry and is not decided; nor are volume/area effects. cell::add_node/replace_node are not opened: the ledgers are on the values handed to them.",
+   ref="DESIGN.md section 4 C11"),
+ "C20": dict(
+   technique="normal forms of the grids' index arithmetic (LF engine) with sibling agreement across uspg_abstract/uspg_3d/uspg_4d instantiations; arithmetic-width rule",
+   text="Decides for every instantiated grid class: every voxel flattening is x + y*nx + z*nx*ny with axis-consistent indices and computed in size_t (as is the total voxel count); every quantisation is floor((coord - min_axis)/voxel_size) of the matching axis; update_dimensions assigns counts, origin and extent axis-consistently and sizes the storage with nx*ny*nz; get_grid_content visits [0,n) and get_neighborhood [i-1,i+2) clamped, per axis.",
+   note="The behaviour of points exactly on the box boundary under floating point (absolute-epsilon padding: nb = ceil((max+eps-min)/size) can equal the index of max) is value-level and NOT decided here; it is the heart of C20 and is stated as not decided.",
+   ref="DESIGN.md section 4 C20"),
+})
+
 NA_DEFAULT = "checker not finished yet (see DESIGN.md section 4 for the planned clauses)"
 NA = {}
 
